@@ -876,3 +876,34 @@ impl Sim {
         made
     }
 }
+
+impl Sim {
+    /// complete pending fetch `i` with a body chosen by the scenario (None = failure)
+    pub fn complete_fetch_with(&mut self, i: usize, body: Option<Vec<u8>>) {
+        let f = self.fetches.remove(i);
+        self.steps += 1;
+        self.schedule_digest.u64(7).u64(body.is_some() as u64);
+        let ev = match body {
+            Some(buffer) => NetworkEvent::BlockFetched { block_hash: f.hash, block_id: f.id, peer_index: f.peer, buffer },
+            None => NetworkEvent::BlockFetchFailed { block_hash: f.hash, peer_index: f.peer, block_id: f.id },
+        };
+        self.nodes[f.node].net_in.push_back(ev);
+    }
+
+    /// run everything except fetch completions until nothing else is enabled
+    pub fn settle_without_fetches(&mut self, max_steps: u64) -> bool {
+        let mut k = 0;
+        loop {
+            let acts: Vec<Action> = self.enabled().into_iter().filter(|a| !matches!(a, Action::FetchDone(_) | Action::FetchFail(_))).collect();
+            if acts.is_empty() {
+                return true;
+            }
+            let a = acts[self.rng.usize_below(acts.len())].clone();
+            self.apply(a);
+            k += 1;
+            if k >= max_steps {
+                return false;
+            }
+        }
+    }
+}
